@@ -283,6 +283,15 @@ fn operand_json<'tcx>(
                     o.put("fn", J::s(key(tcx, *did)));
                     o.put("fn_path", J::s(tcx.def_path_str_with_args(*did, args)));
                 }
+                ty::Ref(..) | ty::RawPtr(..) => {
+                    if let mir::Const::Val(mir::ConstValue::Scalar(rustc_middle::mir::interpret::Scalar::Ptr(p, _)), _) = c.const_ {
+                        let aid = p.provenance.alloc_id();
+                        if let Some(rustc_middle::mir::interpret::GlobalAlloc::Static(sd)) = tcx.try_get_global_alloc(aid) {
+                            o.put("static", J::s(key(tcx, sd)));
+                            o.put("static_path", J::s(tcx.def_path_str(sd)));
+                        }
+                    }
+                }
                 ty::Bool | ty::Char | ty::Int(_) | ty::Uint(_) => {
                     if let Some(si) = c.const_.try_eval_scalar_int(tcx, env) {
                         let bits = si.to_bits(si.size());
